@@ -290,6 +290,60 @@ def run_compression_case(ctx, res, seed, rank=None):
     res.case(('svd', seed), True, info)
 
 
+def run_renorm_case(ctx, res, seed):
+    """object life: a variable is used (values normalised and decoded), then its `norm` is RE-ASSIGNED to another chain of the same
+    length; from then on it must behave exactly like a fresh variable declared with the new chain (round trip, normalised domain)"""
+    rng = random.Random(seed)
+    designed = {1: ({'domain': [0.001, 10.0], 'dist': 'none', 'norm': ['log10', 'minmax']}, ['log', 'minmax']),
+                2: ({'domain': [2.0, 6.0], 'dist': 'none', 'norm': ['linear(2.0, 1.0)', 'minmax(lb_norm=-1, ub_norm=1)']}, ['linear(-1.5, 0.0)', 'minmax(lb_norm=-1, ub_norm=1)']),
+                3: ({'domain': [0.5, 4.5], 'dist': 'N', 'dist_args': [2.5, 0.6], 'norm': ['linear(0.5, 1.0)', 'zscore']}, ['linear(4.0, -2.0)', 'zscore'])}
+    alt = {'linear': ['linear(3.0, 0.5)', 'linear(-2.0, 1.0)'], 'log': ['log', 'log10', 'log(2)'],
+           'minmax': ['minmax', 'minmax(lb_norm=-1, ub_norm=1)'], 'zscore': ['zscore(0.5, 1.5)', 'zscore(1.0, 3.0)']}
+    for _ in range(40):
+        if seed in designed:
+            spec_a, nb = designed[seed]
+            spec_b = {**spec_a, 'norm': nb}
+            fresh = make_var(spec_b)
+            break
+        spec_a = gen_valid_var(rng)
+        if len(spec_a['norm']) < 2:
+            continue
+        first = spec_a['norm'][0]
+        kind = next(k for k in alt if first.startswith(k))
+        if kind == 'zscore' and spec_a['dist'] == 'N':
+            continue
+        choices = [c for c in alt[kind] if c != first]
+        spec_b = {**spec_a, 'norm': [rng.choice(choices)] + list(spec_a['norm'][1:])}
+        try:
+            fresh = make_var(spec_b)
+            zf = fresh.normalize(np.array(fresh.get_domain(), dtype=float))
+            if not (np.all(np.isfinite(zf)) and abs(zf[1] - zf[0]) > 1e-9):
+                continue
+        except (RuntimeError, FloatingPointError, ZeroDivisionError):
+            continue
+        break
+    else:
+        return
+    var = make_var(spec_a)
+    lb, ub = map(float, var.get_domain())
+    vals = np.array([lb + t * (ub - lb) for t in (0.0, 0.13, 0.5, 0.77, 1.0)])
+    z_a = var.normalize(vals)
+    back_a = var.denormalize(z_a)                      # the variable has been used with its first chain
+    var.norm = spec_b['norm']
+    info = {'renorm': seed, 'spec_before': spec_a, 'norm_after': spec_b['norm']}
+    z_new, z_fresh = np.asarray(var.normalize(vals), dtype=float), np.asarray(fresh.normalize(vals), dtype=float)
+    rt = np.asarray(var.denormalize(z_new), dtype=float)
+    dec = np.asarray(var.denormalize(z_fresh), dtype=float)
+    ok = (np.allclose(back_a, vals, rtol=1e-9, atol=1e-12) and np.allclose(z_new, z_fresh, rtol=1e-10, atol=1e-12)
+          and np.allclose(rt, vals, rtol=1e-9, atol=1e-12) and np.allclose(dec, vals, rtol=1e-9, atol=1e-12))
+    if not ok:
+        res.failures.append({'kind': 'variable-with-re-assigned-norm-differs-from-a-fresh-variable', 'signature': 'none', 'input': info,
+                             'observed': {'normalize': z_new.tolist(), 'round_trip': rt.tolist(), 'decode_of_fresh_values': dec.tolist()},
+                             'expected': {'normalize': z_fresh.tolist(), 'round_trip': vals.tolist()}})
+    res.hit('norm-re-assigned-after-use')
+    res.case(('renorm', seed), True, info)
+
+
 def run_time_stability_case(ctx, res, seed):
     """a stored normalised training input must decode to the evaluated physical point also after the domain changes"""
     rng = random.Random(seed)
@@ -334,7 +388,7 @@ def run(ctx: core.Ctx, only=None) -> core.Result:
         items = core.corpus_cases('C16') + [{'spec': gen_valid_var(ctx.rng)} for _ in range(ctx.scale(60, 800))] + \
             [{'sampling': ctx.rng.randrange(10 ** 6)} for _ in range(ctx.scale(4, 40))] + \
             [{'svd': ctx.rng.randrange(10 ** 6), 'rank': [11, 2, 13, 4, 1, 3][k % 6]} for k in range(ctx.scale(4, 40))] + \
-            [{'time': s} for s in range(ctx.scale(4, 8))]
+            [{'time': s} for s in range(ctx.scale(4, 8))] + [{'renorm': k} for k in (1, 2, 3)] + [{'renorm': ctx.rng.randrange(10, 10 ** 6)} for _ in range(ctx.scale(6, 60))]
     for it in items:
         with core.guarded(res, 'scenario-raised', it):
             if 'spec' in it:
@@ -343,6 +397,8 @@ def run(ctx: core.Ctx, only=None) -> core.Result:
                 run_sampling_case(ctx, res, it['sampling'])
             elif 'svd' in it:
                 run_compression_case(ctx, res, it['svd'], it.get('rank'))
+            elif 'renorm' in it:
+                run_renorm_case(ctx, res, it['renorm'])
             elif 'time' in it or 'norm' in it:
                 run_time_stability_case(ctx, res, it.get('time', it.get('seed', 0)))
     out = core.try_driver(lines, res, 'Amisc.normalize / denormalize (generated transform formulas)')
